@@ -117,6 +117,13 @@ Definition law_of (p : list tree) : option (list (Z * Q)) :=
       Some (map (fun ab => (code_of [b2z (fst ab); b2z (snd ab)], Qmult (bern r (fst ab)) (bern r (snd ab))))
                 [(false, false); (true, false); (false, true); (true, true)])
     else None
+  | [A 12; A op; A len; A rn; A rd] =>
+    (* every gene of every child of a very long genome pooled: each is flipped with the rate, independently
+       (C12_flip_marginals), so the pooled genes are independent trials with that rate *)
+    if 0 <? len then
+      let r := if (op =? 0) || (op =? 1) then Qmake 1 (Z.to_pos len) else q_of rn rd in
+      Some [(code_of [1], r); (code_of [0], Qminus 1 r)]
+    else None
   | [A 8; A n; A ck; A cn; A cd] =>
     let c := if ck =? 0 then default_close (Z.to_nat n) else q_of cn cd in
     Some (tally Z.eqb (dmap (fun o => match o with None => 0 | Some i => Z.of_nat i + 1 end)
